@@ -51,6 +51,7 @@ def atomType : Atom → AType
   | .range _ _ _ => .any                               -- internal::range
   | .ranges _ _ => .any                                -- internal::ranges
   | .utf8Range _ _ _ => .any                           -- internal::range< R, peek_utf8, Lo, Hi >
+  | .repOne lo _ _ => if lo != 0 then .any else .opt   -- rep_one_min_max.hpp: conditional_t< ( Min != 0 ), any, opt >
   | .maxDigits _ => .any                               -- integer.hpp: maximum_rule< Integer, Maximum > : analyze_any_traits<>
   | .string cs => if cs.length != 0 then .any else .opt    -- internal::string< Cs... >
   | .istring cs => if cs.length != 0 then .any else .opt   -- internal::istring< Cs... >
